@@ -49,7 +49,25 @@ pub fn run(rng: &mut Rng, n: usize, outdir: &std::path::Path, flavour: &str) {
                 1 => lines.push("isready".into()),
                 2 => lines.push(if rng.chance(1, 6) { long_junk(rng) } else { junk(rng) }),
                 3 => lines.push(rng.pick(&["  isready  ", "\tuci", "uci now please", "isready 1 2 3", "isready\t", " \t uci \t ", "uci uci", "isready isready quit"]).to_string()),
-                4 => { lines.push("ucinewgame".into()); cur = Board::default(); }
+                4 => {
+                    lines.push("ucinewgame".into());
+                    cur = Board::default();
+                    // the same game sent again right after the new game, one move longer (or exactly as before)
+                    if let Some((ls, ltxt, lm)) = last_pos.clone() {
+                        if rng.chance(1, 2) {
+                            let mut b = ls;
+                            for m in &lm { b.make_move(m); }
+                            let mut played = lm.clone();
+                            if rng.chance(3, 4) { let ms = g.mg.generate_moves(&b); if !ms.is_empty() { let m = *rng.pick(&ms); played.push(m); b.make_move(&m); } }
+                            let mut line = ltxt.clone();
+                            if !played.is_empty() { line += " moves"; for m in &played { line += " "; line += &uci_text(m); } }
+                            lines.push(line);
+                            if rng.chance(1, 2) { lines.push("isready".into()); }
+                            cur = b;
+                            last_pos = Some((ls, ltxt, played));
+                        }
+                    }
+                }
                 5 => lines.push(junk(rng)),
                 6 | 7 => {
                     // a position command: startpos or FEN, with a legal game; keep the trees small for the depth-limited go
